@@ -11,7 +11,7 @@ import os, shutil, tempfile
 import vlib
 from . import c11
 
-THEOREM_FILES = ['C15']
+THEOREM_FILES = ['C15', 'C15b']
 ASSUMPTIONS = ['faults are injected at top level or in taken branches only (a fault inside a macro body has two candidate lines, definition and call; the property does not say which)',
                'a duplicate label is injected after the original definition, so the injected line is the offending one',
                'the error text names a line when it contains "line: N" (the format of every located error of this code base)']
